@@ -106,6 +106,12 @@ def run_vm(code, env_seed, lits=(), funcs=None, meta=None, max_steps=60000, max_
 
 
 def run_ref(src, env_seed, lits=(), max_steps=60000, max_effects=120, modules=None, perturb=False):
+    if perturb is True:
+        # 16 significant digits leave up to 2.25 ulp either way: one run 3 ulp up, one 3 ulp down
+        up = run_ref(src, env_seed, lits, max_steps, max_effects, modules, perturb=3)
+        if up.get("status") != "not-judged":
+            up["alt"] = run_ref(src, env_seed, lits, max_steps, max_effects, modules, perturb=-3)
+        return up
     try:
         it = Interp(src, Env(env_seed, lits), max_steps=max_steps, max_effects=max_effects, modules=modules, perturb=perturb)
         st = it.run()
@@ -131,6 +137,10 @@ def conditioning_slack(ref, ref2, factor=8.0):
     """ref: plain reference run, ref2: the run with one-ulp perturbed constant subexpressions (Interp(perturb=True)).
     -> per effect index a list of absolute tolerances (factor x the distance of the two runs), for the prefix on
     which both runs have the same shape; beyond that prefix the program's own branches depend on the last digit."""
+    if ref2.get("alt") is not None:
+        (o1, p1), (o2, p2) = conditioning_slack(ref, {k: v for k, v in ref2.items() if k != "alt"}, factor), conditioning_slack(ref, ref2["alt"], factor)
+        n = min(len(o1), len(o2))
+        return [[max(x, y) for x, y in zip(a, b)] for a, b in zip(o1[:n], o2[:n])], (p1 or p2 or len(o1) != len(o2))
     out = []
     blown = False
     for e1, e2 in zip(ref.get("effects", []), ref2.get("effects", [])):
